@@ -460,7 +460,8 @@ def add_fasta(path, ty_arg, text, expect_recs=None, expect_type=None):
         first = e
     cases.append("(CFasta %s %s %s [%s] [%s] %s)" % (
         cstr(path), optstr(ty_arg), cstr(text),
-        "; ".join("(%s, %s)" % (cstr(n), cstr(s)) for n, s in (recs or [])),
+        "; ".join("(%s, %s)" % (cstr(n if isinstance(n, str) else repr(n)), cstr(s if isinstance(s, str) else repr(s)))
+                  for n, s in (recs or [])),
         "; ".join(mol_term(x) for x in alls), mol_term(first)))
     meta.append(["fasta", os.path.basename(path), "%d records" % len(recs or []), len(text)])
     stats["fasta_files"] += 1
